@@ -5539,7 +5539,13 @@ class TensorDictBase(MutableMapping):
             is_leaf=_NESTED_TENSORS_AS_LISTS_NONTENSOR,
             out=self if inplace else None,
             device=device,
+            propagate_lock=True,
         )
+        if not inplace and not result.is_locked:
+            # nested tensordicts that were locked on their own stay locked too (the metadata records it)
+            for key, val in self.items(True):
+                if _is_tensor_collection(type(val)) and val.is_locked:
+                    result.get(key).lock_()
         result._consolidated = {"storage": storage, "metadata": metadata_dict}
         if filename is not None:
             if use_buffer:
